@@ -21,6 +21,8 @@ Implementation: Dataclass with validation and defaults, matches reference implem
 from dataclasses import dataclass
 from typing import Any
 
+from src.core.linter_utils import require_number
+
 # Default nesting threshold constant
 DEFAULT_MAX_NESTING_DEPTH = 4
 
@@ -34,6 +36,7 @@ class NestingConfig:
 
     def __post_init__(self) -> None:
         """Validate configuration values."""
+        require_number("max_nesting_depth", self.max_nesting_depth)
         if self.max_nesting_depth <= 0:
             raise ValueError(f"max_nesting_depth must be positive, got {self.max_nesting_depth}")
 
